@@ -390,6 +390,13 @@ def plan(tier):
     sf = dict(g[2], name="c09-scan-first", ep_len=16)
     P.append((sf["name"], HE.gen_scenario(sf), "dev", dict(H=12 if tier != "thorough" else 16, k=1, core=True, core_names=OBS_CORE,
                                                             scan_first=True, variant=sf)))
+    # sessions on the gateway device (router / firewall) crossed with its power state: login counts of a device that is not on
+    GW = [("do-nothing", ""), ("node-session-remote-login", "'192.168.10.1'"), ("node-send-local-command", "'gwdir'"),
+          ("node-shutdown", "'router_1'"), ("node-startup", "'router_1'"), ("node-shutdown", "'firewall_1'"),
+          ("node-startup", "'firewall_1'"), ("node-session-remote-logoff", "'192.168.10.1'"), ("node-reset", "'firewall_1'")]
+    for v in (g[2], g[0]):
+        vv = dict(v, name=v["name"] + "-gw-sessions", ep_len=12)
+        P.append((vv["name"], HE.gen_scenario(vv), "bfs", dict(depth=4 if tier == "thorough" else 3, budget=60000, hints=GW, variant=vv)))
     members = [g[0], g[1], g[2], g[3]] if tier == "thorough" else [g[1], g[2]]
     for v in members:
         cfg = HE.gen_scenario(v)
